@@ -34,6 +34,21 @@ def run(ctx):
             c["rn"] = [x * 2 for x in c["rn"]]
             rs = ctx.harness(["c13", "replay", ctx.write_ndjson("tr_self.ndjson", [c])])[-1]
             ctx.selftest("replay: doubled expected R-hat^2 of one history", len(rs["bad"]) > 0)
+    # 1b. many chains / parameters (LCG-generated histories, same expected statistics)
+    g = ctx.tlc("Gen_TrackersBig", workers=4, timeout=900, coverage=False)
+    ctx.require_ok(g, "Gen_TrackersBig")
+    cases = g.tagged("REPLAY")
+    if len(cases) < 20:
+        raise vlib.ToolError("Gen_TrackersBig: %d cases" % len(cases))
+    res = ctx.harness(["c13", "replay", ctx.write_ndjson("tr_big.ndjson", cases)], timeout=1800)[-1]
+    ctx.cov["evaluations"] += res["evaluations"]
+    ctx.cov["traces_validated_against_impl"] += len(cases)
+    ctx.cov["distinct_nontrivial"] += res["rhat_checked"]
+    for m in res["bad"]:
+        h = m["hist"]
+        ctx.violation("trackers-big chains=%d params=%d len=%d" % (len(h[0]), len(h[0][0]), len(h)),
+                      "tracker statistics differ: %s" % (m.get("why") or m.get("panic")),
+                      {"direction": "replay", "spec": "Gen_TrackersBig", "mismatch": m})
     # 2. collect_rhat on a grid of summaries (any number of parameters)
     for cfg in (["t1", "t2", "q1"] if thorough else ["q1", "q2"]):
         g = ctx.tlc("RhatGrid", cfg="RhatGrid_%s.cfg" % cfg, workers=4, timeout=1800)
